@@ -183,6 +183,22 @@ def generic_rules(body):
     # R10  `d.key() < *s` (both sides &[u8]) => `*d.key() < **s`: std's PartialOrd for references forwards to the referents
     for h in re.finditer(r'\b([A-Za-z_]\w*)\.key\(\)\s*(<=|>=|<|>)\s*\*([A-Za-z_]\w*)\b', m):
         edits.append((h.start(), h.end(), '*%s.key() %s **%s' % (h.group(1), h.group(2), h.group(3)), 'R10'))
+    # R10b  `a >= l.key()` (both sides &[u8], left side a local) => `*a >= *l.key()`
+    for h in re.finditer(r'(?<![\w.)])([a-z_]\w*)\s*(<=|>=)\s*([A-Za-z_]\w*)\.key\(\)', m):
+        edits.append((h.start(), h.end(), '*%s %s *%s.key()' % (h.group(1), h.group(2), h.group(3)), 'R10'))
+    # R18  V.sort_unstable_by_key(|x| x.key.clone()) / (|x| x.key_bytes()) => V.sort_by_entry_key_v()
+    #      (trait shim: std's contract of a sort by the entry's key, prelude/sort_by_key.rs; Ord of Bytes is the order of the
+    #      byte view, proved in unit bytes)
+    for h in re.finditer(r'\.\s*sort_unstable_by_key\s*\(\s*\|\s*(\w+)\s*\|\s*\1\s*\.\s*(key\s*\.\s*clone\(\)|key_bytes\(\))\s*\)', m):
+        edits.append((h.start(), h.end(), '.sort_by_entry_key_v()', 'R18'))
+    # R20  E[A..].iter() => vstd::slice::slice_subrange(E.as_slice(), A, E.len()).iter()   (the range check is slice_subrange's precondition)
+    for h in re.finditer(r'\b([A-Za-z_]\w*)\s*\[\s*([\w]+)\s*\.\.\s*\]\s*\.\s*iter\(\)', m):
+        edits.append((h.start(), h.end(), 'vstd::slice::slice_subrange(%s.as_slice(), %s, %s.len()).iter()' % (h.group(1), h.group(2), h.group(1)), 'R20'))
+    # D14  println!(..) => ()    (diagnostic output: no property speaks about it; the statement is DROPPED)
+    for h in re.finditer(r'\bprintln!\s*\(', m):
+        op = h.end() - 1
+        cl = match_brace(m, op)
+        edits.append((h.start(), cl + 1, '()', 'D14'))
     # D10  closure parameter `_` => `_unused` (Verus accepts only variable patterns there)
     for h in re.finditer(r'\|\s*_\s*\|', m):
         edits.append((h.start(), h.end(), '|_unused|', 'D10'))
